@@ -234,8 +234,14 @@ static void validate_c09(const uint8_t *data, size_t len, const wcfg_t *cfg, con
 {
 	rd_file_t f;
 	/* bytes before the table untouched */
-	for (size_t i = 0; i < cfg->prefix_len && i < len; i++)
+	for (size_t i = 0; i < cfg->prefix_len && i < len; i++) {
+		if (HUGE_PREFIX(cfg)) {    /* sparse hole: zeros; sample the first and last 64 KiB */
+			if (i == 65536 && cfg->prefix_len > 131072) i = cfg->prefix_len - 65536;
+			if (data[i] != 0) { viol("C09/foreign-prefix-modified", "byte %zu of the %zu (sparse, zero) bytes before the table changed", i, cfg->prefix_len); break; }
+			continue;
+		}
 		if (data[i] != foreign_byte(i)) { viol("C09/foreign-prefix-modified", "byte %zu of the %zu foreign bytes before the table changed", i, cfg->prefix_len); break; }
+	}
 	RULE("foreign_prefix_untouched");
 	if (rd_parse(data, len, (int64_t)cfg->prefix_len, &f) != 0) {
 		viol("C09/undecodable", "independent decoder rejects the file: %s (%s, %zu entries)", f.err, wcfg_str(cfg), m->n);
@@ -329,12 +335,12 @@ static void case_c09(const args_t *a, long c, rng_t *r)
 	snprintf(path, sizeof path, "%s/c09-%ld.mtbl", a->workdir, c);
 	VLOG("case %ld: %zu entries %s\n", c, m.n, wcfg_str(&cfg));
 	if (write_case(path, &cfg, &m) == 0) {
-		size_t len; uint8_t *data = read_file(path, &len);
+		size_t len; uint8_t *data = map_file(path, &len);
 		if (!data) inconclusive("cannot read back %s", path);
 		else {
 			validate_c09(data, len, &cfg, &m);
 			if (want_sample()) sample("c09: file of %zu bytes, %zu entries, %s: decoded and validated by harness/refdec.c", len, m.n, wcfg_str(&cfg));
-			free(data);
+			unmap_file(data, len);
 		}
 		if (cfg.pool >= 0) STAT("c09.files_pooled");
 		if (cfg.prefix_len) STAT("c09.files_with_foreign_prefix");
@@ -380,7 +386,7 @@ static void case_c10(const args_t *a, long c, rng_t *r)
 	if (pool) mtbl_threadpool_destroy(&pool);
 	stat_add("c10.refused_adds_interleaved", refused);
 
-	size_t len; uint8_t *data = read_file(path, &len);
+	size_t len; uint8_t *data = map_file(path, &len);
 	rd_file_t f;
 	if (!data || rd_parse(data, len, (int64_t)cfg.prefix_len, &f) != 0) {
 		inconclusive("independent decoder cannot establish the truth about this file: %s", data ? f.err : "unreadable");
@@ -449,7 +455,7 @@ static void case_c10(const args_t *a, long c, rng_t *r)
 		}
 		rd_free(&f);
 	}
-	free(data);
+	unmap_file(data, len);
 	unlink(path);
 	model_free(&m);
 }
@@ -458,6 +464,7 @@ int main(int argc, char **argv)
 {
 	args_t a;
 	parse_args(argc, argv, &a);
+	g_allow_huge_prefix = 1;
 	case_fn f = NULL;
 	if (!strcmp(a.sub, "c01")) f = case_c01;
 	else if (!strcmp(a.sub, "c09")) f = case_c09;
